@@ -7,6 +7,36 @@ observed after each frame (nothing / RST_STREAM(code) / GOAWAY(code) / close) an
 Tolerate(Allowed(state, frame)); dispatch only from complete legal requests.
 """
 import srvfam, vlib
+from srvprop import hdrs, req, finish, gen_frame_shapes
+
+
+def gen_extra(ctx, thorough):
+    """What the model has no notion of: (1) objects recycled through the process-wide pools - a stream the server
+    itself reset, then (same connection, same goroutine, so the recycled object) a normal stream that completes and
+    receives a frame RFC 7540 5.1 forbids; (2) every small shape of every frame type (shared with C17)."""
+    rng = ctx.rng
+    out = []
+    resets = {
+        'malformed': lambda sid: [{"op": "hdr", "sid": sid, "fields": hdrs(sid, "POST", [["X-Bad", "1"]]), "es": True, "pad": -1}],
+        'cl-mismatch': lambda sid: [{"op": "hdr", "sid": sid, "fields": hdrs(sid, "POST", cl=9), "es": False, "pad": -1}, {"op": "data", "sid": sid, "n": 5, "es": True, "pad": -1}],
+        'body-limit': lambda sid: [{"op": "hdr", "sid": sid, "fields": hdrs(sid, "POST"), "es": False, "pad": -1}, {"op": "data", "sid": sid, "n": 10, "es": False, "pad": -1}],
+        'peer-rst': lambda sid: [{"op": "hdr", "sid": sid, "fields": hdrs(sid, "POST"), "es": False, "pad": -1}, {"op": "rst", "sid": sid, "code": 8}],
+    }
+    late = [lambda sid: {"op": "data", "sid": sid, "n": 3, "es": False, "pad": -1}, lambda sid: {"op": "data", "sid": sid, "n": 0, "es": True, "pad": -1},
+            lambda sid: {"op": "hdr", "sid": sid, "fields": [["x-late", "1"]], "es": True, "pad": -1}, lambda sid: {"op": "wu", "sid": sid, "inc": 5},
+            lambda sid: {"op": "rst", "sid": sid, "code": 8}]
+    for name, mk in resets.items():
+        for k in (1, 2, 4):
+            for lf in late:
+                steps, sid = [], 1
+                for _ in range(k):
+                    steps += mk(sid); sid += 2
+                for _ in range(k):                       # as many normal streams, so that each recycled object is met
+                    steps += req(sid) + [finish(sid, n=2)]; sid += 2
+                steps += [lf(sid - 2)] + req(sid) + [finish(sid, n=1)]
+                out.append({'tag': 'pool-history-' + name, 'cfg': {'maxConc': 8, 'maxBody': 5}, 'steps': steps})
+    out += gen_frame_shapes(ctx, thorough, 200)
+    return out
 
 
 def run(ctx):
@@ -26,16 +56,22 @@ def run(ctx):
     for i, h in enumerate(picked):
         scen.append({'id': i + 1, 'tag': 'c08', 'cfg': {'maxConc': 2, 'initWin': 2, 'maxBody': 3, 'unit': 1},
                      'steps': srvfam.concretise(h, unit=1, maxwin_m=8, rng=ctx.rng), 'abs': h})
-    ctx.nontrivial = len({json_key(h) for h in picked if len(h) >= 2})
+    extra = gen_extra(ctx, thorough)
+    for j, e in enumerate(extra):
+        e['id'] = len(scen) + j + 1
+    scen += extra
+    ctx.nontrivial = len({json_key(h) for h in picked if len(h) >= 2}) + len(extra)
     ctx.rule = ('environment histories = every (abstract server state, peer frame / handler completion) edge of H2Server.tla up to '
                 '%d steps over ids {1,3,5}(+2,0), sampled to the budget keeping every distinct last-event class; each is replayed in '
-                'lock-step into the real server; non-trivial = distinct history of length >= 2' % (4 if thorough else 3))
+                'lock-step into the real server; non-trivial = distinct history of length >= 2. PLUS generator scenarios for what the model has '
+                'no notion of: pool history (streams the server reset, then normal streams on the same connection that complete and get a forbidden '
+                'frame) and small frame shapes (type x flags x length 0..10 x filler).' % (4 if thorough else 3))
     ctx.assumptions = ['x/net Framer/hpack is the independent peer', 'quiescence is detected from hook counters (verif build tag)',
                        'RFC7540.tla transcribes RFC 7540 5.1/6.x; tolerance per the property (stream error may be answered by a connection error)']
     tr, _ = srvfam.run_harness(ctx, scen, 'c08')
     srvfam.judge(ctx, scen, tr, props={'C08'})
     for s in scen[:2]:
-        ctx.sample({'abstract': s['abs'], 'steps': s['steps']})
+        ctx.sample({'abstract': s.get('abs'), 'steps': s['steps']})
 
 
 def json_key(h):
